@@ -24,7 +24,9 @@ theorem C06_same_plan (env : Env) (root : Msg) (e : Expr) (part : Nat) (m : Msg)
     (eval (Proofs.flipDry env) root e part m st).2.flags = (eval env root e part m st).2.flags :=
   Proofs.eval_dryrun_same env root e part m st
 
-/-- The `-> destination` lines are, in order, exactly the action entries `matches_exec` iterates over. -/
+/-- The `-> destination` lines are, in order, exactly the action entries `matches_exec` iterates over.  (Audit au1: stated
+for `matchesInspect .. false ..`, the non-dry mode of the printing loop: the loop equals filter + map; for `-d` the same lines
+appear as the first line of every group of `C06_explanations_true`.) -/
 theorem C06_lines_are_actions (width : Bytes → Nat → Nat) (home confpath : Bytes) (stdinMode : Bool) (path : Bytes) (ml : MatchList) :
     matchesInspect width home confpath stdinMode false path ml = (Proofs.destLines stdinMode path ml).flatten :=
   Proofs.inspect_lines_are_actions width home confpath stdinMode path ml
@@ -133,7 +135,8 @@ theorem C06_explanations_true (width : Bytes → Nat → Nat) (home confpath : B
 theorem C06_inspect_flag (t : MType) : t.isInspect = true ↔ t = .body ∨ t = .date ∨ t = .header :=
   Proofs.isInspect_iff t
 
-/-- The value an explanation quotes is the value the pattern was applied to: in a dry run the entry
+/-- Non-vacuity of `C06_explanations_subject` is below the theorem (added by audit au1).
+The value an explanation quotes is the value the pattern was applied to: in a dry run the entry
 `expr_regexec` appends for a body, date or header condition carries the name, exactly the subject
 given to the regex engine and the offsets the engine returned for it; its printed sub-matches are
 the set, non-empty groups of the engine's answer. -/
@@ -148,6 +151,27 @@ theorem C06_explanations_subject (env : Env) (ty : MType) (lno part : Nat) (p : 
         | some (so, eo) => if so == eo then none else some (so, eo)
         | none => none) :=
   Proofs.regexec_records env ty lno part p key val st groups hty hd hrx
+
+/-- A dry-run environment whose regex engine answers: group 0 = bytes 0..2, group 1 unset, group 2 empty at 1. -/
+def c06exSubjEnv : Env where
+  rx := fun _ _ => .ok [some (0, 2), none, some (1, 1)]
+  command := fun _ => 0
+  isDir := fun _ => false
+  now := 0
+  strptime := fun _ => none
+  zoneName := fun _ => none
+  fileTime := fun _ => none
+  dryrun := true
+  path := []
+
+/-- Non-vacuity: `header "S" /h/` on the value `hi`: the hypotheses hold, and of the three groups exactly the set, non-empty
+one is printed. -/
+example : MType.header.isInspect = true ∧ c06exSubjEnv.dryrun = true ∧
+    c06exSubjEnv.rx { src := [104] } [104, 105] = .ok [some (0, 2), none, some (1, 1)] ∧
+    Proofs.printed (matchCopy { src := [104] } [104, 105] [some (0, 2), none, some (1, 1)]) = [(0, 2)] :=
+  ⟨by decide, rfl, rfl,
+   (C06_explanations_subject c06exSubjEnv .header 1 0 { src := [104] } [83] [104, 105] { ml := [], flags := MFlags.empty }
+     [some (0, 2), none, some (1, 1)] (by decide) rfl rfl).2⟩
 
 /-- The stronger reading of the property text - "an explanation printed under an action comes from the
 rule of that action", i.e. no `match` sentinel stands between a printing entry and the action it is
@@ -192,7 +216,11 @@ invariant of `C01_main_exit0_partial`):
 * `Proofs.exit0_refDirs C dirs`: the reference log - the directories in walking order (`exit0_dirsOf conf`), in each
   the names in the order of its stream (sorted, as the shim presents them), for each name the lines of its file. -/
 
-/-- **The dry run predicts the real run.**  Maildir mode, the fault-free plan, rules without discard that ask the
+/-- (Audit au1: `log` is a ghost field of the model's loop state - both runs append `inspectLines env ml path` for every
+message whose verdict is an action list, BEFORE `matches_exec` runs and whether or not anything is printed (a real run
+without `-v` prints nothing).  So "the log of the real run" means: the action entries the real run hands to `matches_exec`,
+message by message, rendered as `->` lines; what the real run then DID with them is `C01_main_exit0_partial`.)
+**The dry run predicts the real run.**  Maildir mode, the fault-free plan, rules without discard that ask the
 operating system nothing (`Proofs.asksFree`: a `command` condition is run once by the dry run and once by the real run
 and may answer differently; `isdirectory "d"` may change between the runs), no
 message visited twice (`Proofs.exit0_Good`, see `C01_main_exit0_partial`): when both runs end with exit status
